@@ -58,6 +58,7 @@ type Contract struct {
 	Invariants map[int][]*Clause
 	Sets       []*Clause
 	Locals     []*Clause
+	PostLocals []*Clause // ghost definitions evaluated in the post-state (results bound)
 	Assigns    []string
 	HavocCells []string
 	Source     string
@@ -339,6 +340,13 @@ func (sp *Spec) LoadFile(path, prefix string, external bool) error {
 			}
 		case "havoc_cell":
 			cur.HavocCells = append(cur.HavocCells, fields[1:]...)
+		case "post_local":
+			rest := strings.TrimSpace(strings.TrimPrefix(line, fields[0]))
+			i := strings.Index(rest, ":=")
+			if i < 0 {
+				return fmt.Errorf("%s: expected NAME := expr", where)
+			}
+			cur.PostLocals = append(cur.PostLocals, &Clause{Kind: "post_local", Var: strings.TrimSpace(rest[:i]), Expr: strings.TrimSpace(rest[i+2:]), Line: where})
 		case "local", "sets":
 			rest := strings.TrimSpace(strings.TrimPrefix(line, fields[0]))
 			i := strings.Index(rest, ":=")
